@@ -1,4 +1,5 @@
 import ZipVerif.Tie.ReaderGlue
+import ZipVerif.Model.ReaderOpen
 
 /-
 Tie obligations for the READER GLUE of src/read.rs, continued (translator tier T6, helper t6r2; vocabulary in
@@ -18,7 +19,34 @@ Tie obligations for the READER GLUE of src/read.rs, continued (translator tier T
                          built for the decision `.aes pw mode vv`, is `vv == .ae2` - the flag `Model.byIndexReadC`
                          gives to `crcCheck`
 
-Assumptions that enter the trusted base with this file (`Basic/RsGlue.lean`): `DeflateDecoder::new(r)`,
+  tie_by_index           (… <$> Gen.ZipArchive.by_index_with_optional_password ext z i pw) =
+                           byIndexOpen (archOf z) i.toNat pw >>= fun (data, ds, choice) => … <$> runChoice ext … choice
+                         for EVERY archive value, index, password and behaviour `ext` of the layer constructors:
+                         `files.get(i)` out of range → FileNotFound; encrypted entry and no password →
+                         UnsupportedArchive(PASSWORD_REQUIRED) before any I/O; a password on a plain entry is
+                         discarded; `find_content` with its store into the entry's `data_start` (reported under the
+                         label `data`); `make_crypto_reader` called with the entry's method, CRC-32, time, descriptor
+                         flag, the `Take`, the password, AES info and compressed size; `Err(e)` re-thrown,
+                         `Ok(Err(InvalidPassword))` returned as a value WITH the store; the handle = (the table's
+                         entry, borrowed; `crypto_reader = Some(layer)`; `reader = NoReader`)
+  tie_by_index_raw       the same for `by_index_raw`: handle = (entry, borrowed; no layer; `Raw(take)`, limit = the
+                         entry's compressed size)
+  by_name_eq / tie_by_name
+                         `by_name_with_optional_password` = `names_map.get(name)` (absent → FileNotFound) then
+                         `by_index_with_optional_password`; on an archive satisfying `NamesOk` (what `ZipArchive::new`
+                         returns: `new_namesOk`) with fewer than 2^64 entries the lookup is the model's
+                         `Archive.indexOfName` (LAST duplicate) and the whole function is `Model.byNameOpen`
+  byIndexReadC_eq_open, byNameRead_eq_open, byIndexRaw_eq_open
+                         the model functions the properties speak about (`byIndexRead` = `byIndexReadC`, `byNameRead`,
+                         `byIndexRaw`: open AND read to the end) are the tied open halves (`Model/ReaderOpen.lean`)
+                         followed by the read halves (`readChoice`, `takeAll`)
+
+Assumptions that enter the trusted base with this file (`Basic/RsGlue.lean`): a method of `impl<R: Read + Seek>
+ZipArchive<R>` has `self.reader` as the device of `M` and cannot change `self` otherwise (an assignment to a field of
+`self` leaves the subset); `Vec::get(i)` is the `i`-th element or `None`; `Cow::Borrowed/Owned` are tags on the value;
+`res.ok_or(e).and_then(|x| body)` in result position is a bind; the `AtomicU64::store` of a callee is reported by
+the caller under the argument's name (`Rs.Stores.via`).
+`DeflateDecoder::new(r)`,
 `BzDecoder::new(r)`, `zstd::Decoder::new(r)` (over `BufReader::new(r)`) are records of their inner reader;
 `zstd::Decoder::new` does not fail (it fails only when the zstd context cannot be allocated), so the `.unwrap()`
 behind it does not panic.
@@ -27,7 +55,7 @@ set_option linter.unusedSimpArgs false
 set_option linter.unusedVariables false
 
 namespace ZipVerif.Tie.ReaderGlue2
-open ZipVerif ZipVerif.Model ZipVerif.Tie.Parsers ZipVerif.Tie.ReaderGlue
+open ZipVerif ZipVerif.Model ZipVerif.Tie.SpecRecords ZipVerif.Tie.Records ZipVerif.Tie.Parsers ZipVerif.Tie.ReaderGlue
 
 /-! ### `make_reader` -/
 
@@ -108,5 +136,255 @@ theorem runChoice_ae2 (ext : GExt) (reader : Rs.Take) (csize : UInt64) (c : Cryp
     | ok ok =>
       cases ok <;> cases h
       cases vv <;> rfl
+
+/-! ### `by_index_with_optional_password`, `by_index_raw`, `by_name_with_optional_password` -/
+
+/-- the archive of a generated `ZipArchive` as the model states it -/
+def archOf (z : Gen.ZipArchive) : Archive := (archRes z).1
+
+/-- A handle with its entry in model terms: the entry, whether it is borrowed from the archive's table, the
+decryption layer waiting to be wrapped by `make_reader`, the reader. -/
+def fileView (f : Gen.ZipFile) : FileData × Bool × Option Gen.CryptoReader × Gen.ZipFileReader :=
+  (dataOf f.data.get, (match f.data with | .Borrowed _ => true | .Owned _ => false), f.crypto_reader, f.reader)
+
+/-- the store `find_content` performs, as the caller reports it -/
+def dsStores (ds : Nat) : Rs.Stores := Rs.Stores.via "data" [("data.data_start", UInt64.ofNat ds)]
+
+/-- `find_content` under a bind: what follows only sees the `Take`'s limit and the store list. -/
+theorem find_content_bind {β} (g : Gen.ZipFileData) (F : Rs.Take → Rs.Stores → M β) :
+    (Gen.find_content g >>= fun p => F p.1 p.2) =
+      (Model.findContent (dataOf g) >>= fun ds =>
+        F ⟨g.compressed_size⟩ [("data.data_start", UInt64.ofNat ds)]) := by
+  have h := tie_find_content g
+  have e1 : (Gen.find_content g >>= fun p => F p.1 p.2) =
+      ((fcRes <$> Gen.find_content g) >>= fun q => F ⟨q.2⟩ q.1) := by
+    simp only [map_eq_pure_bind, bind_assoc, pure_bind]
+    rfl
+  rw [e1, h]
+  simp only [map_eq_pure_bind, bind_assoc, pure_bind]
+
+/-- re-throwing the error of an attempted computation is running it -/
+theorem attempt_rethrow {α β} (x : M α) (k : α → M β) :
+    (M.attempt x >>= fun r => match r with
+      | .ok v => k v
+      | .error e => M.throw e) = (x >>= k) := by
+  apply M.ext; intro fa d
+  simp only [M.bind_apply, M.attempt_apply]
+  rcases x fa d with ⟨o, d'⟩
+  cases o <;> rfl
+
+theorem aesInfoOf_dataOf (g : Gen.ZipFileData) : aesInfoOf g.aes_mode = (dataOf g).aesMode := by
+  unfold aesInfoOf dataOf
+  rcases g.aes_mode with _ | ⟨m, vv⟩
+  · rfl
+  · cases vv <;> rfl
+
+theorem getElemOpt_archOf (z : Gen.ZipArchive) (i : Nat) :
+    (archOf z).files[i]? = (z.shared.files.items[i]?).map dataOf := by
+  simp only [archOf, archRes, List.getElem?_map]
+
+/-- What `by_index_with_optional_password` does once the password question is settled (`p'` = the password that is
+passed on): `find_content`, `make_crypto_reader`, the handle. -/
+theorem by_index_tail (ext : GExt) (g : Gen.ZipFileData) (p' : Option Bytes) :
+    (do
+      let x ← Gen.find_content g
+      let x_1 ← (Gen.make_crypto_reader ext g.compression_method g.crc32 g.last_modified_time
+        g.using_data_descriptor x.fst p' g.aes_mode g.compressed_size).attempt
+      let x_2 ← (match x_1 with
+        | Except.ok (Except.ok crypto_reader) =>
+          pure (Except.ok (Gen.ZipFile.mk (Rs.Cow.Borrowed g) (some crypto_reader) Gen.ZipFileReader.NoReader))
+        | Except.error e => M.throw e
+        | Except.ok (Except.error e) => pure (Except.error e) : M (Except Rs.InvalidPassword Gen.ZipFile))
+      pure (Except.map fileView x_2, [] ++ Rs.Stores.via "data" x.snd)) =
+    (do
+      let x ← findContent (dataOf g)
+      let a ← runChoice ext { limit := (dataOf g).compressedSize } (dataOf g).compressedSize
+        (cryptoChoice (dataOf g).method (dataOf g).crc32 (dataOf g).time (dataOf g).usingDataDescriptor p'
+          (dataOf g).aesMode)
+      pure (Except.map (fun cr => (dataOf g, true, some cr, Gen.ZipFileReader.NoReader)) a, dsStores x)) := by
+  refine (find_content_bind g (fun t st => do
+      let x_1 ← (Gen.make_crypto_reader ext g.compression_method g.crc32 g.last_modified_time
+        g.using_data_descriptor t p' g.aes_mode g.compressed_size).attempt
+      let x_2 ← (match x_1 with
+        | Except.ok (Except.ok crypto_reader) =>
+          pure (Except.ok (Gen.ZipFile.mk (Rs.Cow.Borrowed g) (some crypto_reader) Gen.ZipFileReader.NoReader))
+        | Except.error e => M.throw e
+        | Except.ok (Except.error e) => pure (Except.error e) : M (Except Rs.InvalidPassword Gen.ZipFile))
+      pure (Except.map fileView x_2, [] ++ Rs.Stores.via "data" st))).trans ?_
+  refine bind_congr fun ds => ?_
+  rw [tie_make_crypto_reader, aesInfoOf_dataOf]
+  apply M.ext; intro fa d
+  simp only [M.bind_apply, M.attempt_apply]
+  have hm : Tie.Types.methodOf g.compression_method = (dataOf g).method := rfl
+  have ht : Tie.DateTime.toModel g.last_modified_time = (dataOf g).time := rfl
+  have hc : g.compressed_size = (dataOf g).compressedSize := rfl
+  have hcrc : g.crc32 = (dataOf g).crc32 := rfl
+  have hu : g.using_data_descriptor = (dataOf g).usingDataDescriptor := rfl
+  rw [hm, ht, hc, hcrc, hu]
+  rcases runChoice ext { limit := (dataOf g).compressedSize } (dataOf g).compressedSize
+    (cryptoChoice (dataOf g).method (dataOf g).crc32 (dataOf g).time (dataOf g).usingDataDescriptor p'
+      (dataOf g).aesMode) fa d with ⟨o, d'⟩
+  cases o with
+  | ok r => cases r <;> rfl
+  | err e => rfl
+  | panic s => rfl
+
+/-- `by_index_with_optional_password`: index bound → `FileNotFound`; encrypted entry without password → the
+password-required error before any I/O; a password for a plain entry is dropped; `find_content` (with its store into
+the entry's `data_start`); `make_crypto_reader` with exactly the entry's method, CRC, time, descriptor flag, AES info
+and compressed size; the handle: the table's entry (borrowed), the layer in `crypto_reader`, `reader = NoReader`. -/
+theorem tie_by_index (ext : GExt) (z : Gen.ZipArchive) (i : UInt64) (pw : Option Bytes) :
+    (fun r => (r.1.map fileView, r.2)) <$> Gen.ZipArchive.by_index_with_optional_password ext z i pw =
+      (Model.byIndexOpen (archOf z) i.toNat pw >>= fun r =>
+        (fun c => (c.map fun cr => (r.1, true, some cr, Gen.ZipFileReader.NoReader), dsStores r.2.1)) <$>
+          runChoice ext ⟨r.1.compressedSize⟩ r.1.compressedSize r.2.2) := by
+  unfold Gen.ZipArchive.by_index_with_optional_password Model.byIndexOpen
+  rw [getElemOpt_archOf]
+  have hget : Rs.Vec.get z.shared.files i = z.shared.files.items[i.toNat]? := rfl
+  rw [hget]
+  cases hf : z.shared.files.items[i.toNat]? with
+  | none =>
+    msimp
+    rfl
+  | some g =>
+    simp only [Option.map_some]
+    have hs : (dataOf g).encrypted = g.encrypted := rfl
+    rcases pw with _ | p <;> cases he : g.encrypted
+    · msimp [hs, he, Option.isNone, Bool.and_false, Bool.false_eq_true, ↓reduceIte]
+      exact by_index_tail ext g none
+    · msimp [hs, he, Option.isNone, Bool.and_true, ↓reduceIte]
+    · msimp [hs, he, Option.isNone, Bool.and_false, Bool.false_and, Bool.false_eq_true, ↓reduceIte]
+      exact by_index_tail ext g none
+    · msimp [hs, he, Option.isNone, Bool.and_true, Bool.false_and, Bool.false_eq_true, ↓reduceIte]
+      exact by_index_tail ext g (some p)
+
+/-- `by_index_raw`: index bound → `FileNotFound`; `find_content` (with its store); the handle: the table's entry
+(borrowed), no decryption layer, `reader = Raw(take)` with the `Take` limited to the entry's compressed size. -/
+theorem tie_by_index_raw (z : Gen.ZipArchive) (i : UInt64) :
+    (fun r => (fileView r.1, r.2)) <$> Gen.ZipArchive.by_index_raw z i =
+      (Model.byIndexRawOpen (archOf z) i.toNat >>= fun r =>
+        pure ((r.1, true, none, Gen.ZipFileReader.Raw ⟨r.1.compressedSize⟩), dsStores r.2)) := by
+  unfold Gen.ZipArchive.by_index_raw Model.byIndexRawOpen
+  rw [getElemOpt_archOf]
+  have hget : Rs.Vec.get z.shared.files i = z.shared.files.items[i.toNat]? := rfl
+  rw [hget]
+  cases hf : z.shared.files.items[i.toNat]? with
+  | none =>
+    msimp
+    rfl
+  | some g =>
+    simp only [Option.map_some]
+    msimp
+    refine (find_content_bind g (fun t st => pure (fileView (Gen.ZipFile.mk (Rs.Cow.Borrowed g) none
+      (Gen.ZipFileReader.Raw t)), [] ++ Rs.Stores.via "data" st))).trans ?_
+    rfl
+
+/-- `by_name_with_optional_password` is the lookup in `names_map` followed by `by_index_with_optional_password`. -/
+theorem by_name_eq (ext : GExt) (z : Gen.ZipArchive) (name : Bytes) (pw : Option Bytes) :
+    Gen.ZipArchive.by_name_with_optional_password ext z name pw =
+      match Rs.HashMap.get z.shared.names_map name with
+      | none => M.throw .fileNotFound
+      | some idx => (fun r => (r.1, [] ++ Rs.Stores.via "self" r.2)) <$>
+          Gen.ZipArchive.by_index_with_optional_password ext z idx pw := by
+  unfold Gen.ZipArchive.by_name_with_optional_password
+  cases Rs.HashMap.get z.shared.names_map name with
+  | none => msimp
+  | some idx => msimp
+
+/-- The invariant `ZipArchive::new` establishes (`tie_zip_archive_new`): the name map is the one built from the
+entry table, in order. -/
+def NamesOk (z : Gen.ZipArchive) : Prop :=
+  ∃ cap, z.shared.names_map = namesMapOf (archOf z).files cap
+
+/-- `ZipArchive::new` establishes `NamesOk`: every archive it returns carries the name map built from its table. -/
+theorem new_namesOk (fa : Option Nat) (d d' : Dev) (z : Gen.ZipArchive) (hd : d.buf.length < 2 ^ 64)
+    (h : Gen.ZipArchive.new fa d = (.ok z, d')) : NamesOk z := by
+  have t := tie_zip_archive_new fa d hd
+  simp only [map_eq_pure_bind, M.bind_apply, M.pure_apply, h] at t
+  rcases hM : Model.openArchiveAlloc fa d with ⟨o, d2⟩
+  rw [hM] at t
+  cases o with
+  | err e => cases t
+  | panic s => cases t
+  | ok r =>
+    simp only [Prod.mk.injEq, Out.ok.injEq] at t
+    obtain ⟨t1, _⟩ := t
+    refine ⟨r.2, ?_⟩
+    have h1 : (archRes z).1 = r.1 := congrArg (fun x => x.1) t1
+    have h3 : (archRes z).2.2 = namesMapOf r.1.files r.2 := congrArg (fun x => x.2.2) t1
+    show z.shared.names_map = namesMapOf (archRes z).1.files r.2
+    rw [h1]
+    exact h3
+
+theorem indexOfName_lt (a : Archive) (name : Bytes) (i : Nat) (h : a.indexOfName name = some i) :
+    i < a.files.length := by
+  rw [indexOfName_eq] at h
+  have := List.mem_of_getLast? h
+  exact List.mem_range.mp (List.mem_filter.mp this).1
+
+/-- `by_name_with_optional_password` on an archive as built by `ZipArchive::new` (fewer than 2^64 entries): the name
+is looked up with the model's `indexOfName` - absent → `FileNotFound`, duplicates → the LAST entry of that name -,
+then everything `by_index_with_optional_password` does; its stores are passed on under the label `self`. -/
+theorem tie_by_name (ext : GExt) (z : Gen.ZipArchive) (name : Bytes) (pw : Option Bytes)
+    (hz : NamesOk z) (hlen : (archOf z).files.length < 2 ^ 64) :
+    (fun r => (r.1.map fileView, r.2)) <$> Gen.ZipArchive.by_name_with_optional_password ext z name pw =
+      (Model.byNameOpen (archOf z) name pw >>= fun r =>
+        (fun c => (c.map fun cr => (r.1, true, some cr, Gen.ZipFileReader.NoReader),
+            [] ++ Rs.Stores.via "self" (dsStores r.2.1))) <$>
+          runChoice ext ⟨r.1.compressedSize⟩ r.1.compressedSize r.2.2) := by
+  obtain ⟨cap, hmap⟩ := hz
+  rw [by_name_eq, hmap, namesMapOf_get (archOf z).files (archOf z).offset (archOf z).comment cap name]
+  unfold Model.byNameOpen
+  have harch : ({ files := (archOf z).files, offset := (archOf z).offset, comment := (archOf z).comment } : Archive)
+      = archOf z := rfl
+  rw [harch]
+  cases hi : (archOf z).indexOfName name with
+  | none => rfl
+  | some i =>
+    simp only [Option.map_some]
+    have hlt := indexOfName_lt _ _ _ hi
+    have hto : (UInt64.ofNat i).toNat = i := by
+      simp only [UInt64.toNat_ofNat']; omega
+    have h := tie_by_index ext z (UInt64.ofNat i) pw
+    rw [hto] at h
+    rw [← bind_pure_comp] at h ⊢
+    simp only [map_eq_pure_bind, bind_assoc, pure_bind] at h ⊢
+    have h2 := congrArg (fun (x : M _) => x >>= fun r => pure (r.1, [] ++ Rs.Stores.via "self" r.2)) h
+    simp only [bind_assoc, pure_bind] at h2
+    exact h2
+
+/-! ### The model's read-to-the-end functions are the open halves followed by the read halves -/
+
+theorem byIndexReadC_eq_open (ext : Ext) (a : Archive) (i : Nat) (pw : Option Bytes) :
+    byIndexReadC ext a i pw = (byIndexOpen a i pw >>= fun r => readChoice ext r.1 r.2.1 r.2.2) := by
+  unfold byIndexReadC byIndexOpen
+  cases a.files[i]? with
+  | none => rfl
+  | some data =>
+    simp only []
+    by_cases hc : (pw.isNone && data.encrypted) = true
+    · rw [if_pos hc, if_pos hc]; rfl
+    · rw [if_neg hc, if_neg hc]
+      simp only [bind_assoc, pure_bind]
+      refine bind_congr fun ds => ?_
+      generalize cryptoChoice data.method data.crc32 data.time data.usingDataDescriptor
+        (if data.encrypted = true then pw else none) data.aesMode = c
+      cases c <;> rfl
+
+theorem byNameRead_eq_open (ext : Ext) (a : Archive) (name : Bytes) (pw : Option Bytes) :
+    byNameRead ext a name pw = (byNameOpen a name pw >>= fun r => readChoice ext r.1 r.2.1 r.2.2) := by
+  unfold byNameRead byNameOpen
+  cases a.indexOfName name with
+  | none => rfl
+  | some i => simp only []; rw [byIndexRead_eq_choice, byIndexReadC_eq_open]
+
+theorem byIndexRaw_eq_open (a : Archive) (i : Nat) :
+    byIndexRaw a i = (byIndexRawOpen a i >>= fun r => do
+      let raw ← takeAll r.1.compressedSize.toNat
+      pure (r.2, raw)) := by
+  unfold byIndexRaw byIndexRawOpen
+  cases a.files[i]? with
+  | none => rfl
+  | some data => simp only [bind_assoc, pure_bind]
 
 end ZipVerif.Tie.ReaderGlue2
